@@ -290,7 +290,7 @@ def local_corruptions(rnd, f, jv):
         del d3[kk]
         out.append(("missing-member", d3))
         d4 = dict(jv)
-        d4["zz_extra"] = 1
+        d4[rnd.choice(G6.EXTRA_NAMES)] = 1
         out.append(("extra-member", d4))
     return out
 
@@ -320,7 +320,7 @@ def corruptions(rnd, c, doc, ctx):
         else:
             put("wrong-json-type", t, k, rnd.choice(JSON_POOL))
     d = copy.deepcopy(doc)
-    d["zz_extra"] = rnd.choice([1, "x", None, [1]])
+    d[rnd.choice(G6.EXTRA_NAMES)] = rnd.choice([1, "x", None, [1]])
     out.append(("extra-key", "class", d, None))
     return out
 
@@ -772,11 +772,15 @@ def nesting_cases(tier):
                     continue
                 mk = G6.nest_positions(prefix + "N")[pi][2]
                 c = asts[-1]
-                for iname, objs in G6.NEST_INNER_DOCS:
+                for vi, (iname, objs) in enumerate(G6.NEST_INNER_DOCS):
                     for top_extra in (False, True):
-                        doc = {"f": mk(copy.deepcopy(objs)), "s": {"k": 1}, "g": copy.deepcopy(objs[0])}
+                        # the names of the keys that are not fields rotate through the pool (underscore, dunder-shaped,
+                        # camel/snake, non-ASCII...), so that every position meets several of them at every level
+                        ni = idx * 2 + vi * 3 + (1 if top_extra else 0)
+                        objs2 = [G6.rename_extras(o, ni) for o in copy.deepcopy(objs)]
+                        doc = {"f": mk(objs2), "s": {"k": 1}, "g": copy.deepcopy(objs2[0])}
                         if top_extra:
-                            doc["zz_top"] = 1
+                            doc[G6.EXTRA_NAMES[(ni + 1) % len(G6.EXTRA_NAMES)]] = 1
                         for ku in (True, False, None):
                             for ii in (True, False):
                                 if tier == "quick" and ii is False and ku is True and not inner_add and iname == "no-extra":
